@@ -56,6 +56,18 @@ CHECKS = {
         text="Generated sets of variables/biases: atomic forces and energy of the joint run equal the sum of single-object runs (rel 1e-10); timeStepFactor k: forces applied k-fold at multiples of k and zero otherwise, biases updated on the coarse steps only.",
         note="Stateless biases for the sum part; the MTS part uses controlled variables.",
         design="DESIGN.md section 4 C08"),
+    "C09": dict(
+        technique="coverage-guided fuzzing of configuration bytes (libFuzzer, ASan+UBSan, dictionary from the sources, seeded with the repository's test inputs) with a 'module still usable' oracle; property-based testing (Hypothesis): keyword-level mutations of generated valid configurations must be rejected; metamorphic layout rewrites must give bit-identical traces",
+        level="exploration",
+        text="Totality by fuzzing; strictness over 9 mutation kinds (misspelling, wrong context, three brace faults, missing value, text/fused/hex number) applied to every keyword position of generated configurations; layout independence over 9 rewrite kinds (case, whitespace, blank lines, comments, trailing comments, CRLF, split/joined blocks, boolean spellings).",
+        note="Strictness is checked at the positions and for the keywords the generators emit (component/group/bias tables of lib/gen.py and lib/zoo.py), not for every keyword in the manual; letter case is free for keywords only.",
+        design="DESIGN.md section 4 C09"),
+    "C10": dict(
+        technique="structure-aware coverage-guided fuzzing (libFuzzer, ASan+UBSan) of parameter values over curated object templates with boundary values; property-based differential testing (Hypothesis) of recovery after a rejected configuration",
+        level="exploration",
+        text="Every keyword of 15 object templates crossed with boundary values, then steps/outputs/state save; no signal, sanitizer report, hang or huge allocation, module usable afterwards. Recovery: trace of surviving objects after 1-2 rejected configurations (20 kinds) is bitwise that of a control run; object lists and atom requests unchanged; later valid configuration accepted.",
+        note="Keywords not in the templates (path/protein components, volumetric maps, scripted/custom functions) are reached only by the byte-level fuzzer of C09. The log indentation level left raised by some error paths is not compared.",
+        design="DESIGN.md section 4 C10"),
     "C11": dict(
         technique="fault enumeration driven by property-based generation (Hypothesis): process death at every proxy-level file operation (and, thorough, SIGKILL at every rename/openat/write/close/unlink system call via strace), crash sequences; truncation of generated states at generated/all offsets; coverage-guided fuzzing of damaged states (libFuzzer, ASan+UBSan); rapidcheck round trip of the binary stream",
         level="fault_enumeration",
